@@ -238,7 +238,7 @@ def gen_unpack(ctx, enc_from_tlc):
                 elif op == 2:
                     del m[p]
                 else:
-                    m = m[:rnd.randrange(12, len(m) + 1)]
+                    m = m[:rnd.randrange(min(12, len(m)), len(m) + 1)]
                 if not m:
                     break
             add(bytes(m), 'random-mutated')
